@@ -166,6 +166,12 @@ def run_units(units, repo, tier="quick", seed=0, tag="x", timeout=None, filters=
     only = os.environ.get("VERIF_ONLY_HARNESS")
     if only:
         harnesses = [h for h in harnesses if h["name"] in only.split(",")]
+    for u in units:
+        if not any(h["unit"] == u for h in harnesses):
+            results[u].status = "undecided"
+            results[u].reason = "no harness selected for this unit in tier %s" % tier
+    if not harnesses:
+        return results
     files = set(h["file"] for h in harnesses)
     deps = getattr(reg, "DEPS", {})
     grew = True
